@@ -107,9 +107,25 @@ struct Canon {
     }
     if (auto* X = dyn_cast<CXXDefaultArgExpr>(E)) return "<default>";
     if (auto* X = dyn_cast<CXXDefaultInitExpr>(E)) return "<default>";
-    if (auto* X = dyn_cast<DeclRefExpr>(E)) return declName(X->getDecl());
+    if (auto* X = dyn_cast<DeclRefExpr>(E)) {
+      std::string n = declName(X->getDecl());
+      if (X->hasExplicitTemplateArgs() && isa<VarDecl>(X->getDecl())) {   // variable templates: to_value_v<T>, len_v<T>, ...
+        n += "<"; bool f = true;
+        for (auto& TA : X->template_arguments()) { if (!f) n += ","; f = false; std::string t; llvm::raw_string_ostream os(t); TA.getArgument().print(PP, os, true); n += os.str(); }
+        n += ">";
+      }
+      return n;
+    }
     if (auto* X = dyn_cast<DependentScopeDeclRefExpr>(E)) return nns(X->getQualifier()) + X->getDeclName().getAsString();
-    if (auto* X = dyn_cast<UnresolvedLookupExpr>(E)) return nns(X->getQualifier()) + X->getName().getAsString();
+    if (auto* X = dyn_cast<UnresolvedLookupExpr>(E)) {
+      std::string n = nns(X->getQualifier()) + X->getName().getAsString();
+      if (X->hasExplicitTemplateArgs()) {
+        bool isVarTemplate = false;
+        for (auto* D : X->decls()) if (isa<VarTemplateDecl>(D->getUnderlyingDecl())) isVarTemplate = true;
+        if (isVarTemplate) { n += "<"; bool f = true; for (auto& TA : X->template_arguments()) { if (!f) n += ","; f = false; std::string t; llvm::raw_string_ostream os(t); TA.getArgument().print(PP, os, true); n += os.str(); } n += ">"; }
+      }
+      return n;
+    }
     if (auto* X = dyn_cast<CXXThisExpr>(E)) return "this";
     if (auto* X = dyn_cast<MemberExpr>(E)) {
       std::string b = X->isImplicitAccess() ? "this" : exE(X->getBase());
@@ -421,6 +437,21 @@ public:
       if (auto* PF = dyn_cast_or_null<FunctionDecl>(P)) { Canon K0(C, PF); llvm::raw_string_ostream os(psig); PF->getNameForDiagnostic(os, K0.PP, true); os.flush(); }
     }
     std::string extra = ",\"lambda\":true,\"lambda_var\":\"" + jesc(var) + "\",\"parent_sig\":\"" + jesc(psig) + "\"";
+    {
+      const DeclContext* P = L->getLambdaClass()->getDeclContext();
+      while (P && !isa<ClassTemplatePartialSpecializationDecl>(P) && !isa<NamespaceDecl>(P)) P = P->getParent();
+      if (auto* PS = dyn_cast_or_null<ClassTemplatePartialSpecializationDecl>(P)) {
+        Canon K0(C, nullptr);
+        extra += ",\"spec_of\":\"" + jesc(PS->getSpecializedTemplate()->getQualifiedNameAsString()) + "\",\"spec_args\":[";
+        if (auto* AW = PS->getTemplateArgsAsWritten()) {
+          for (unsigned i = 0; i < AW->NumTemplateArgs; i++) {
+            std::string t; llvm::raw_string_ostream os(t); (*AW)[i].getArgument().print(K0.PP, os, true); os.flush();
+            extra += std::string(i ? "," : "") + "\"" + jesc(t) + "\"";
+          }
+        }
+        extra += "]";
+      }
+    }
     emit(MD, MD->getBody(), qn, extra);
     return true;
   }
